@@ -21,6 +21,7 @@ func init() {
 			{"CONNOR-TABLE", ruleConnorTable},
 			{"MINMAX-TABLE", ruleMinMaxTable},
 			{"AGG-PIPELINE", ruleAggPipeline},
+			{"AGG-SIBLING-CASES", ruleAggSiblingCases},
 			{"LIMIT-TABLE", ruleLimitTable},
 			{"INDEX-GUARD", func(c *eng.Ctx) { ruleIndexGuard(c, "INDEX-GUARD", []string{"internal/planner"}, 5) }},
 		},
